@@ -212,7 +212,7 @@ def exec_behaviour(item):
         for c in (single, layered):
             c["severity"] = {"Todo": {"type": "error"}, "Future": {"type": "warning"}}
     obs = []
-    wide = level in ("global", "group")  # these levels touch other rules too: only what concerns `rid` is comparable, in check mode
+    wide = level in ("global", "group", "rule")  # the layered configuration sets global/group entries, which touch other rules too: only what concerns `rid` is comparable, in check mode
     for cfg in (single, layered):
         it = dict(item, lines=lines, cfg=cfg)
         it.pop("ops", None)
